@@ -139,19 +139,42 @@ def nodes_of(node, out=None):
   return out
 
 
+def make_dna(node, spec=None):
+  """pg.DNA built node by node (every (value, children) shape is expressible,
+  unlike the nested-number form)."""
+  kids = [make_dna(c) for c in node.children]
+  if spec is None:
+    return pg.DNA(node.value, kids)
+  return pg.DNA(node.value, kids, spec=spec)
+
+
+def tree_src(node):
+  """Source text that rebuilds the DNA of a tree (for witnesses)."""
+  if not node.children:
+    return f'DNA({node.value!r})'
+  return f'DNA({node.value!r}, [{", ".join(tree_src(c) for c in node.children)}])'
+
+
 def corruptions(rng, desc, flat):
-  """Yields (name, point kind, corrupted tree) one-step corruptions."""
+  """(name, kind, tree) of every one-step corruption of a member, shuffled.
+
+  kind = class of the decision point that owns the corrupted node (oneof,
+  manyof, float, custom) or `group` for a value-less node (root of a space with
+  several elements, the picks of a multi-choice)."""
   pts = G.walk(desc, flat)
   base = G.tree(desc, flat)
   out = []
 
-  def variant(fn):
+  def variant():
     t = G.copy_tree(base)
-    ns = nodes_of(t)
-    return t, ns
+    return t, nodes_of(t)
+
+  def kind_of(n):
+    return 'group' if n.point is None else pts[n.point].kind.split('[')[0]
 
   owner = {}
-  for idx, n in enumerate(nodes_of(base)):
+  all_nodes = nodes_of(base)
+  for idx, n in enumerate(all_nodes):
     if n.point is not None:
       owner[n.point] = idx
   for pi, pt in enumerate(pts):
@@ -159,7 +182,6 @@ def corruptions(rng, desc, flat):
       continue
     ni = owner[pi]
     knd = pt.kind.split('[')[0]
-    vals = []
     if pt.elem['t'] == 'choice':
       n = pt.n
       vals = [('index-negative', -1), ('index-negative', -n),
@@ -174,19 +196,22 @@ def corruptions(rng, desc, flat):
     else:
       vals = [('custom-int', 3), ('custom-float', 0.5), ('custom-none', None)]
     for name, v in vals:
-      t, ns = variant(None)
+      t, ns = variant()
       ns[ni].value = v
       out.append((name, knd, t))
   # structure
-  all_nodes = nodes_of(base)
   for ni, n in enumerate(all_nodes):
-    t, ns = variant(None)
+    t, ns = variant()
     ns[ni].children.append(G.Node(0, []))
-    out.append(('extra-child', 'tree', t))
+    out.append(('extra-child', kind_of(n), t))
     if n.children:
-      t, ns = variant(None)
+      t, ns = variant()
       del ns[ni].children[rng.randrange(len(n.children))]
-      out.append(('dropped-child', 'tree', t))
+      out.append(('dropped-child', kind_of(n), t))
+    if n.value is None and n.children:
+      t, ns = variant()
+      ns[ni].value = 0
+      out.append(('stray-value', 'group', t))
   # sibling picks of one multi-choice
   groups = {}
   for pi, pt in enumerate(pts):
@@ -196,13 +221,13 @@ def corruptions(rng, desc, flat):
     e = pts[grp[0]].elem
     for a, b in zip(grp, grp[1:]):
       if e['sorted'] and pts[a].value != pts[b].value:
-        t, ns = variant(None)
+        t, ns = variant()
         na, nb = ns[owner[a]], ns[owner[b]]
         na.value, nb.value = nb.value, na.value
         na.children, nb.children = nb.children, na.children
         out.append(('unsorted-picks', 'manyof', t))
       if e['distinct'] and pts[a].value != pts[b].value:
-        t, ns = variant(None)
+        t, ns = variant()
         na, nb = ns[owner[a]], ns[owner[b]]
         nb.value, nb.children = na.value, [G.copy_tree(c) for c in na.children]
         out.append(('duplicated-pick', 'manyof', t))
@@ -283,35 +308,47 @@ def check_members(ctx, desc, spec, members, case):
 
 
 def check_nonmembers(ctx, rng, desc, spec, members, case):
+  """validate / binding / from_numbers must reject one-step corruptions.
+
+  Per member one corruption of every (name, kind) is tried.  A corrupted tree
+  that pg.DNA normalises into another shape is judged on the shape the DNA
+  reports and keyed `reshaped:tree` (it is no longer the corruption applied).
+  """
   c = ctx.counters
   for m in members:
     seen_kinds = set()
     for name, knd, t in corruptions(rng, desc, m):
       if (name, knd) in seen_kinds:
         continue
-      form = G.nested(t)
       try:
-        d = pg.DNA(form)
+        d = make_dna(t)
       except Exception:  # pylint: disable=broad-except
-        c['corruption_unparsable'] += 1
+        c['corruption_not_constructible'] += 1
+        seen_kinds.add((name, knd))
         continue
-      if G.tree_is_member(desc, dna_shape(d)):
+      shape = dna_shape(d)
+      if G.tree_is_member(desc, shape):
         c['corruption_is_member'] += 1
         continue
       seen_kinds.add((name, knd))
-      c['corruption:' + name] += 1
+      key = (name, knd)
+      if shape != t:
+        c['corruption_reshaped'] += 1
+        key = ('reshaped', 'tree')
+      c['corruption:' + key[0]] += 1
+      ctx.seen('corruption_kinds', key)
+      src = tree_src(t)
+      origin = f'corruption {name} of member {G.nested(G.tree(desc, m))!r}'
       ok, _ = accepts(lambda: spec.validate(d))
       c['nonmember_validate'] += 1
       if ok:
-        ctx.violation('nonmember-accepted', f'validate:{name}:{knd}',
-                      f'validate accepted {form!r} (corruption {name} of member '
-                      f'{G.nested(G.tree(desc, m))!r})', case)
-      ok, _ = accepts(lambda: pg.DNA(form, spec=spec))
+        ctx.violation('nonmember-accepted', f'validate:{key[0]}:{key[1]}',
+                      f'validate accepted {src} = {d!r} ({origin})', case)
+      ok, _ = accepts(lambda: make_dna(t, spec))
       c['nonmember_bind'] += 1
       if ok:
-        ctx.violation('nonmember-accepted', f'bind:{name}:{knd}',
-                      f'DNA({form!r}, spec=) accepted (corruption {name} of member '
-                      f'{G.nested(G.tree(desc, m))!r})', case)
+        ctx.violation('nonmember-accepted', f'bind:{key[0]}:{key[1]}',
+                      f'{src[:-1]}, spec=) accepted ({origin})', case)
     seen = set()
     for name, flat in flat_corruptions(rng, desc, m):
       if name in seen or G.is_member(desc, flat):
@@ -350,7 +387,7 @@ def check_random(ctx, rng, desc, spec, case):
   def gen():
     a = pg.geno.Random(seed=rng.randrange(1000))
     a.setup(spec)
-    return [a.propose() for _ in range(3)]
+    return [a.propose() for _ in range(ctx.params.get('gen_draws', 3))]
   ds = lib_call(ctx, 'geno.Random', gen, case)
   if not isinstance(ds, Raised):
     for d in ds:
@@ -365,7 +402,7 @@ def check_finite(ctx, rng, desc, spec, size, case):
   """Iteration, size, order, end, next_dna, Sweeping for a finite space."""
   c = ctx.counters
   full = size <= ctx.params['random_max']
-  limit = size if full else 60
+  limit = size if full else ctx.params.get('prefix', 60)
   ref = []
   for m in G.enumerate_flat(desc):
     ref.append(m)
@@ -435,7 +472,9 @@ def check_finite(ctx, rng, desc, spec, size, case):
         break
   # -- next_dna from DNAs rebuilt from raw numbers
   if full and ref:
-    picks = {len(ref) - 1, 0, rng.randrange(len(ref)), rng.randrange(len(ref))}
+    picks = {len(ref) - 1}
+    for _ in range(ctx.params.get('next_picks', 3)):
+      picks.add(rng.randrange(len(ref)))
     for j in sorted(picks):
       def nxt():
         d = pg.DNA(G.nested(G.tree(desc, ref[j])))
@@ -456,32 +495,39 @@ def check_finite(ctx, rng, desc, spec, size, case):
       rest = []
       for d in f.iter_dna():
         rest.append(numbers(d))
-        if len(rest) >= 5:
+        if len(rest) >= nfirst:
           break
       return numbers(f), rest
+    nfirst = ctx.params.get('first_iter', 5)
     r = lib_call(ctx, 'first_dna', first, case)
     c['next_checks'] += 1
-    if not isinstance(r, Raised) and (r[0] != ref[0] or r[1] != ref[1:6]):
-      ctx.violation('next-wrong', 'first_dna', f'{r!r} vs {ref[:6]!r}', case)
-  # -- Sweeping
+    if not isinstance(r, Raised) and (r[0] != ref[0] or r[1] != ref[1:1 + nfirst]):
+      ctx.violation('next-wrong', 'first_dna', f'{r!r} vs {ref[:1 + nfirst]!r}', case)
+  # -- Sweeping: the whole sequence and its end for spaces of <= sweep_full
+  # members, else the first sweep_prefix proposals
+  sweep_all = full and size <= ctx.params.get('sweep_full', 10 ** 9)
+  nsweep = len(exp) + 2 if sweep_all else min(len(exp), ctx.params.get('sweep_prefix', 8))
   def sweep():
     a = pg.geno.Sweeping()
     a.setup(spec)
     out = []
     try:
-      while len(out) < len(exp) + 2:
+      while len(out) < nsweep:
         out.append(numbers(a.propose()))
     except StopIteration:
       out.append('stop')
     return out
   s = lib_call(ctx, 'Sweeping', sweep, case)
   c['sweeping_checks'] += 1
-  want = list(exp) + (['stop'] if full else [])
+  c['sweeping_full' if sweep_all else 'sweeping_prefix'] += 1
+  if not isinstance(s, Raised):
+    c['sweeping_proposals'] += len(s)
+  want = (list(exp) + ['stop']) if sweep_all else list(exp[:nsweep])
   if not isinstance(s, Raised) and s[:len(want)] != want:
     ctx.violation('sweeping', 'Sweeping.propose',
                   f'proposed {s[:6]!r}... ({len(s)}), reference {want[:6]!r}... '
                   f'({len(want)})', case)
-  return ref if full else None
+  return (ref, dnas if got == exp else None) if full else (None, None)
 
 
 def run_case(ctx, i):
@@ -501,15 +547,31 @@ def run_case(ctx, i):
   if isinstance(spec, Raised):
     return
   size = G.size(desc)
-  members = None
+  members = dnas = None
   if size is not None:
     c['finite_specs'] += 1
-    members = check_finite(ctx, rng, desc, spec, size, case)
+    members, dnas = check_finite(ctx, rng, desc, spec, size, case)
   else:
     c['infinite_specs'] += 1
     sz = lib_call(ctx, 'space_size', lambda: spec.space_size, case)
     c['size_infinite_observed:' + str(sz)] += 1
-  # members to validate: all of a small space, else reference-sampled ones
+  # every iterated DNA (they equal the reference members here) has the
+  # documented shape and is accepted by validate
+  if dnas is not None:
+    step = max(1, -(-len(dnas) // ctx.params.get('validate_iterated', 10 ** 9)))
+    for m, d in list(zip(members, dnas))[::step]:
+      c['member_validate'] += 1
+      c['iterated_validated'] += 1
+      if dna_shape(d) != G.tree(desc, m):
+        ctx.violation('dna-shape', 'iter_dna', f'iterated {d!r} has shape '
+                      f'{dna_shape(d)!r}, documented {G.tree(desc, m)!r}', case)
+        break
+      ok, e = accepts(lambda: spec.validate(d))
+      if not ok:
+        ctx.violation('member-rejected', 'validate',
+                      f'iterated member {d!r} rejected: {e!r:.300}', case)
+        break
+  # members for DNA()/validate/binding/from_numbers: reference-sampled
   nm = ctx.params['members']
   if members is not None and len(members) <= nm:
     sample = list(members)
